@@ -55,6 +55,20 @@ def ob_funnel(names, cname, kind, extra=0, dname="min", mutate=False):
     return f
 
 
+def ob_low_precision():
+    """numpy scalars of lower precision beyond a bound not representable in that precision (see funnel.low_precision_cases)"""
+    def f():
+        from .funnel import low_precision_cases
+        n = 0
+        for label, decls, opt, task, x in low_precision_cases():
+            a = opt._init_agent(list(x))
+            n += 1
+            if len(a.position) != len(decls) or not in_space(a.position, decls):
+                return Failure("position:not-a-member:low-precision-candidate", case=label, position=repr(a.position))
+        return OK if n else Failure("low-precision:no-case-ran")
+    return f
+
+
 def ob_optimize(names, mode, n_agents, cycles, dname, mutate=False):
     def f():
         st = stubs.Stream("np")
@@ -121,5 +135,6 @@ def obligations(tier):
             obs.append(Ob(f"optimize[{'+'.join(names)},{mode},n={n},cycles={cycles}]",
                           ob_optimize(names, mode, n, cycles, "min"), 900))
     obs.append(Ob("optimize[C,serial,max]", ob_optimize(("C",), "serial", 2, 1, "max"), 300))
+    obs.append(Ob("low_precision_candidates", ob_low_precision(), 60))
     obs.append(Ob("twin_vacuity", twin(), 30, expect_refuted=True))
     return obs
